@@ -264,8 +264,8 @@ class FileDataPdu(AbstractPduBase):
             data[current_idx : current_idx + struct_arg_tuple[1]],
         )[0]
         current_idx += struct_arg_tuple[1]
-        if current_idx < len(data):
-            file_data_packet._params.file_data = data[current_idx:]
+        # Use the setter to keep the PDU data field length consistent
+        file_data_packet.file_data = data[current_idx:]
         return file_data_packet
 
     @property
